@@ -125,6 +125,7 @@ type namedCb func()
 type namedCx complex128
 
 type sameNameShort struct{ A int32 }
+type sameNameFunc struct{ A func() }
 type sameNameLong struct {
 	A int32
 	C chan int
@@ -479,6 +480,21 @@ func TestC13(t *testing.T) {
 		nm := map[string]string{"sameNameShort": "x.Same", "sameNameLong": "x.Same"}
 		if msg := mustFail(v, nm, false); msg != "" {
 			directFail(t, "C13", map[string]interface{}{"kind": "chan in the longer of two types sharing a class name"}, "C13 two types under one class name: %s", msg)
+		}
+		r.Eval()
+	}
+	// the same with equally long types: the channel sits where the type written first has a string, a func where
+	// it has a number (whatever the encoder remembers about a class by its name alone belongs to the other type)
+	for i, v := range []interface{}{
+		[]interface{}{&zoo.AcctV1{ID: 1, Name: "n", Note: "x"}, &zoo.AcctBad{ID: 2, Name: make(chan string), Note: "y"}},
+		[]interface{}{zoo.AcctV1{ID: 1, Name: "n"}, zoo.AcctV1{ID: 3}, zoo.AcctBad{ID: 2, Name: make(chan string)}},
+		[]interface{}{&zoo.AcctV1{ID: 1, Name: "n"}, &zoo.AcctBad{ID: 2}}, // a nil channel is a channel
+		map[string]interface{}{"k": []interface{}{&sameNameShort{A: 1}, &sameNameFunc{A: func() {}}}},
+	} {
+		nm := zoo.OneClassName()
+		nm["sameNameShort"], nm["sameNameFunc"] = "x.Same", "x.Same"
+		if msg := mustFail(v, nm, false); msg != "" {
+			directFail(t, "C13", map[string]interface{}{"kind": "unsupported field where the type written first under the same class name has a supported one", "case": i}, "C13 two types under one class name, case %d: %s", i, msg)
 		}
 		r.Eval()
 	}
